@@ -102,8 +102,10 @@ func (c *column) Reset(ownLen uint32, zero unsafe.Pointer) {
 	}
 	if ownLen <= 64 && c.isTrivial { // A coarse estimate where manually zeroing is faster
 		c.ZeroRange(0, ownLen, zero)
+		verifProbe(verifProbeColumnResetSmall)
 	} else {
 		c.data.SetZero()
+		verifProbe(verifProbeColumnResetLarge)
 	}
 }
 
